@@ -208,3 +208,176 @@ def get_batches(ctx):
         ctx.cover(f"C15/get_batches/cover#{i}", hyp, props, fn=fnq)
         if _sat(hyp + [n == 7, bs == 3]):
             ctx.control(f"C15/get_batches/control/all_rows_used#{i}", bx.nb * ebs == n, hyp, props, fn=fnq)
+
+
+# --------------------------------------------------------------------------------------
+class BatchedSeq(SymSeq):
+    """get_batches' result for one array, iterable batch by batch (zip(*get_batches(...)))"""
+
+    def __init__(self, b):
+        super().__init__(b.nb, lambda k: b.batch(k), "batch")
+        self.b = b
+
+
+@family("datafit/fit_to_data_loops", ["C15"])
+def fit_to_data_loops(ctx):
+    """the real epoch / batch loops with row provenance and a ghost clock for PRNG keys:
+    every call of step / loss_fn pairs x rows with their own condition rows, gradient steps only see training rows, and the key
+    handed over is strictly 'newer' (deeper in the split tree) than every key handed out before (fresh), all derived from `key`."""
+    it = ctx.interp
+    install_lib(it)
+    MOD = MOD_F
+    fnq = f"{MOD}.fit_to_data"
+    props = ["C15"]
+    n, bs, me, mp = z3.Ints("n batch_size max_epochs max_patience")
+    p_ = z3.Real("val_prop")
+    key0 = z3.Const("key", KEY)
+    ghost = {"last": depth(key0)}
+    jj = z3.Int("j_in_batch")
+    emitted = []
+    inst = [perm_facts, key_facts]
+
+    def check_call(kind, batch, key, allowed_tag):
+        xb, cb = batch
+        ebs = xb.parent.bs
+        hyp = [jj >= 0, jj < ebs]
+        it.emit(f"call/{kind}/aligned", "post", xb.row(jj) == cb.row(jj), hyp)
+        it.emit(f"call/{kind}/rows_from_{allowed_tag}_part_only", "post", z3.BoolVal(xb.parent.base.tag == (allowed_tag, "x") and cb.parent.base.tag == (allowed_tag, "condition")))
+        it.emit(f"call/{kind}/fresh_key", "post", depth(key.e) > ghost["last"])
+        ghost["last"] = depth(key.e)
+
+    def step(params, static, *batch, optimizer=None, opt_state=None, loss_fn=None, key=None):
+        check_call("step", batch, key, "train")
+        return Opaque("params"), Opaque("opt_state"), SV(it.fresh("loss", "real"))
+
+    class LossFn:
+        def __call__(self, params, static, *batch, key=None):
+            check_call("validation_loss", batch, key, "val")
+            return SV(it.fresh("val_loss", "real"))
+
+    menv = it.module_env(MOD_U)
+    from fjvc.interp import find_def
+    real_split = it.make_function(find_def(menv.tree, "train_val_split"), menv, f"{MOD_U}.train_val_split")
+    real_batches = it.make_function(find_def(menv.tree, "get_batches"), menv, f"{MOD_U}.get_batches")
+
+    def split_wrapper(key, arrays, val_prop=0.1):
+        tr, va = real_split(key, arrays, val_prop=val_prop)
+        for part, tag in ((tr, "train"), (va, "val")):
+            for a in part:
+                a.tag = (tag, a.tag)
+        return tr, va
+
+    def batches_wrapper(arrays, batch_size):
+        out = real_batches(arrays, batch_size)
+        return tuple(BatchedSeq(b) for b in out)
+
+    it.global_overrides[MOD] = {"step": step, "train_val_split": split_wrapper, "get_batches": batches_wrapper}
+    it.lib.overrides.update({"optax.adam": lambda lr: Opaque("adam"), "equinox.partition": lambda *a, **k: (Opaque("params"), Opaque("static")), "equinox.combine": lambda p, s: Opaque("dist"),
+                             "equinox.is_inexact_array": "f", "jax.numpy.array": lambda a, *r, **k: SymList.of(a) if isinstance(a, (SymList, list)) else a, "jax.numpy.argmin": lambda a, **k: SymList.of(a).argmin()})
+
+    class Tq(SymSeq):
+        postfix = ""
+
+        def set_postfix(self, *a, **k):
+            pass
+
+        def set_postfix_str(self, *a, **k):
+            pass
+
+    it.lib.overrides["tqdm.tqdm"] = lambda seq, **k: Tq(seq.length, seq._at, seq.elem)
+    q = z3.Int("q!b")
+    q2 = z3.Int("q2!b")
+    cnt = [0]
+
+    def fresh_data(like, who):
+        """arbitrary re-shuffling history: an uninterpreted provenance map per array, constrained by the invariant"""
+        cnt[0] += 1
+        out = []
+        for a in like:
+            Mf = z3.Function(f"prov_{who}_{a.tag[1]}_{cnt[0]}", I, I)
+            out.append(DataArr(a.n, (lambda i, Mf=Mf: Mf(i)), a.tag, a.rest))
+        return out
+
+    def data_inv(arrs):
+        xa, ca = arrs
+        return z3.And(xa.n == ca.n, z3.ForAll([q], z3.Implies(z3.And(q >= 0, q < xa.n), xa.prov(q) == ca.prov(q))),
+                      z3.ForAll([q, q2], z3.Implies(z3.And(q >= 0, q2 >= 0, q < xa.n, q2 < xa.n, q != q2), xa.prov(q) != xa.prov(q2))))
+
+    def outer_inv(e, env, entry=None):
+        return z3.And(e >= 0, ghost["last"] <= depth(env["key"].e), data_inv(env["train_data"]), data_inv(env["val_data"]),
+                      z3.BoolVal(all(a.tag[0] == "train" for a in env["train_data"]) and all(a.tag[0] == "val" for a in env["val_data"])),
+                      env["train_data"][0].n == entry["train_data"][0].n if entry else z3.BoolVal(True), env["val_data"][0].n == entry["val_data"][0].n if entry else z3.BoolVal(True))
+
+    def havoc_outer(e, env):
+        h = Env(env.parent)
+        h.update(env)
+        h["key"] = Key(z3.Const(f"key!{it.fresh('c', 'int')}", KEY))
+        ghost["last"] = it.fresh("last", "int")
+        h["train_data"] = fresh_data(env["train_data"], "train")
+        h["val_data"] = fresh_data(env["val_data"], "val")
+        c_ = it.fresh_counter
+        h["losses"] = {"train": SymList(it.fresh("n_tr", "int"), z3.Array(f"train!{c_}", I, R)), "val": SymList(it.fresh("n_va", "int"), z3.Array(f"val!{c_}", I, R))}
+        for name in ("params", "opt_state", "subkey", "subkeys", "batch_losses", "loss_i", "batch", "best_params", "_"):
+            h[name] = Key(z3.Const(f"{name}!{it.fresh('c', 'int')}", KEY)) if isinstance(env.get(name), Key) else Opaque(name)
+        return h
+
+    def inner_inv(b, env, entry=None):
+        return z3.And(b >= 0, ghost["last"] <= depth(env["key"].e))
+
+    def havoc_inner(b, env):
+        h = Env(env.parent)
+        h.update(env)
+        h["key"] = Key(z3.Const(f"key!{it.fresh('c', 'int')}", KEY))
+        ghost["last"] = it.fresh("last", "int")
+        h["batch_losses"] = SymList(it.fresh("n_bl", "int"), z3.Array(f"bl!{it.fresh_counter}", I, R))
+        for name in ("params", "opt_state", "subkey", "loss_i", "batch"):
+            h[name] = Key(z3.Const(f"{name}!{it.fresh('c', 'int')}", KEY)) if isinstance(env.get(name), Key) else Opaque(name)
+        return h
+
+    it.loop_specs[(fnq, "for#0")] = LoopSpec(outer_inv, havoc_outer, break_inv=lambda e, env, entry=None: z3.BoolVal(True))
+    it.loop_specs[(fnq, "for#1")] = LoopSpec(inner_inv, havoc_inner, name="inv_train")
+    it.loop_specs[(fnq, "for#2")] = LoopSpec(inner_inv, havoc_inner, name="inv_val")
+    X = DataArr(n, lambda i: i, "x")
+    C = DataArr(n, lambda i: i, "condition")
+    fn = it.repo_function(fnq)
+    def run_once():
+        ghost["last"] = depth(key0)  # the ghost clock restarts with every explored path
+        return fn(Key(key0), Opaque("dist"), X, condition=C, loss_fn=LossFn(), max_epochs=SV(me), max_patience=SV(mp), batch_size=SV(bs), val_prop=SV(p_),
+                  optimizer=Opaque("opt"), return_best=False, show_progress=False)
+
+    paths = it.explore(run_once, max_paths=64)
+    kq, nq, iq = z3.Const("k!b", KEY), z3.Int("n!b"), z3.Int("i!b")
+    t3 = [z3.ForAll([kq, nq, iq], z3.Implies(z3.And(iq >= 0, iq < nq), z3.And(PERM(kq, nq, iq) >= 0, PERM(kq, nq, iq) < nq, PINV(kq, nq, PERM(kq, nq, iq)) == iq)), patterns=[PERM(kq, nq, iq)]),
+          z3.ForAll([kq, nq, iq], depth(child(kq, nq, iq)) == depth(kq) + 1, patterns=[child(kq, nq, iq)])]  # T3 contracts of jr.permutation / jr.split, quantified form
+    pre = [n >= 2, bs >= 1, p_ > 0, p_ < 1, me >= 0, mp >= 0]
+
+    def has_quant(e, seen_=None):
+        seen_ = set() if seen_ is None else seen_
+        if e.get_id() in seen_:
+            return False
+        seen_.add(e.get_id())
+        return z3.is_quantifier(e) or any(has_quant(c, seen_) for c in e.children())
+
+    normal = [p for p in paths if p.outcome == "return"]
+    ctx.oblige("C15/fit_to_data/struct/returns", len(normal) >= 1, [], props, kind="struct", fn=fnq)
+    seen = set()
+    rp = dict(kind="fit_rows", vars={})
+    for p in paths:
+        for em in p.obligations:
+            sig = (em.oid, em.goal.get_id() if hasattr(em.goal, 'get_id') else str(em.goal), tuple(h.get_id() for h in em.hyps))
+            if sig in seen:
+                continue
+            seen.add(sig)
+            nm = em.oid.replace(MOD + ".", "")
+            parts = em.goal.children() if z3.is_and(em.goal) and "/inv" in nm else [em.goal]
+            for ci, g_ in enumerate(parts):
+                if z3.is_true(g_):
+                    continue
+                ctx.oblige(f"C15/fit_to_data/{nm}" + (f"/c{ci}" if len(parts) > 1 else ""), g_, pre + (t3 if has_quant(g_) else []) + em.hyps, props, kind=em.kind, fn=fnq, replay=rp, inst=inst)  # quantified goals (data_inv) need the quantified T3 form; the rest use ground instances (inst)
+    ctx.oblige("C15/fit_to_data/struct/both_call_sites_reached", any("call/step/" in s_[0] for s_ in seen) and any("call/validation_loss/" in s_[0] for s_ in seen), [], props, kind="struct", fn=fnq)
+    # determinism: no other source of randomness than `key` (no PRNGKey / key / seed construction, no numpy / python random)
+    import ast as _ast
+    node = find_def(it.module_env(MOD).tree, "fit_to_data")
+    srcs = [_ast.unparse(c.func) for c in _ast.walk(node) if isinstance(c, _ast.Call)]
+    bad = [s_ for s_ in srcs if any(t in s_ for t in ("PRNGKey", "jr.key", "random.seed", "np.random", "numpy.random", "time."))]
+    ctx.oblige("C15/fit_to_data/struct/all_randomness_derives_from_key", not bad, [], props, kind="struct", fn=fnq, note=f"random sources found: {bad}")
